@@ -67,6 +67,7 @@ class Ctx:
         self.t0 = time.time()
         self.replay_mode = only is not None
         self.notes = {}
+        self.factor = 1.0      # budget multiplier (C18 replays other monitors at a fraction)
         try:
             signal.signal(signal.SIGALRM, self._on_alarm)
         except (ValueError, OSError):
@@ -78,7 +79,10 @@ class Ctx:
         return self.tier == "quick"
 
     def scale(self, quick, thorough):
-        return quick if self.tier == "quick" else thorough
+        v = quick if self.tier == "quick" else thorough
+        if self.factor != 1.0 and isinstance(v, (int, float)) and not isinstance(v, bool):
+            return type(v)(max(1, v * self.factor)) if v else v
+        return v
 
     def mine(self, index):
         """Static sharding of an enumerated index."""
